@@ -51,8 +51,8 @@ COMPONENTS = {
     "stub": ["mpi4py.MPI -> afqmcsim.simmpi.SimComm on afqmcsim.world.SimWorld (baton-passing threads)"],
 }
 REQUIRED_PROBES = {
-    "quick": ["sr_changed_population", "zero_weight_walker", "offset_near_breakpoint", "rank_ahead_ge_2", "eager", "rendezvous"],
-    "thorough": ["sr_changed_population", "zero_weight_walker", "offset_near_breakpoint", "rank_ahead_ge_2", "eager", "rendezvous",
+    "quick": ["driver_block_transitions_checked", "sr_changed_population", "zero_weight_walker", "offset_near_breakpoint", "rank_ahead_ge_2", "eager", "rendezvous"],
+    "thorough": ["driver_block_transitions_checked", "sr_changed_population", "zero_weight_walker", "offset_near_breakpoint", "rank_ahead_ge_2", "eager", "rendezvous",
                  "eager_and_rendezvous_same_collective", "zero_weight_first", "zero_weight_last"],
 }
 
@@ -121,8 +121,34 @@ def gen_zeta(rng, absw):
     return z, False
 
 
+P_DRIVER = {"quick": 0.012, "thorough": 0.004}
+DRIVER_MENU = 12
+
+
+def driver_menu_entry(k):
+    """Static (compile-determining) part of an in-situ run: the comb as the driver uses it."""
+    r = random.Random(70000 + k)
+    wt = ["restricted", "unrestricted"][k % 2]
+    ad = [None, "forward", None, "forward"][(k // 2) % 4]
+    return dict(kind="driver", wt=wt, trial="rhf" if wt == "restricted" else "uhf", nelec=[2, 2] if wt == "restricted" else r.choice([[2, 1], [2, 2]]),
+                norb=4, nchol=2, n_walkers=r.choice([4, 6]), n_batch=1, dt=r.choice([0.01, 0.05]), n_exp_terms=6,
+                n_prop_steps=r.choice([1, 2]), n_ene_blocks=r.choice([1, 2]), n_sr_blocks=1, R=[1, 2, 3][(k // 4) % 3], ad_mode=ad,
+                orbital_rotation=False, do_sr=(k % 3 != 0), n_blocks=3, n_eql=1, n_ene_blocks_eql=1, n_sr_blocks_eql=1, menu=k)
+
+
+def gen_driver_cfg(rng, k):
+    m = driver_menu_entry(k)
+    m.update(ham_seed=rng.randrange(1, 2**31 - 1), strength=rng.choice([0.3, 0.6, 0.9]), mix=rng.choice([0.0, 0.1, 0.3]), spin_dep=False,
+             jax_seed=rng.randrange(1, 2**20), faults=[],
+             sched={"policy": rng.choice(POLICIES), "straggler": rng.randrange(3), "p_rendezvous": rng.choice([0.0, 0.5, 1.0]), "p_clock_jump": 0.0})
+    return m
+
+
 def gen_cfg(seed, index, tier):
     rng = random.Random(seed)
+    if rng.random() < P_DRIVER[tier]:
+        k = rng.randrange(DRIVER_MENU)
+        return {"driver": True, "k": k, "dcfg": gen_driver_cfg(rng, k)}
     R = rng.choice([1, 2, 2, 3, 3, 4])
     n = rng.choice([1, 2, 3, 4, 6, 8])
     container = rng.choice(["restricted", "unrestricted"])
@@ -163,12 +189,16 @@ def gen_cfg(seed, index, tier):
 
 
 def group_of(cfg):
+    if cfg.get("driver"):
+        return f"driver-{cfg['k']:02d}"
     return f"{cfg['container']}-R{cfg['R']}-n{cfg['n']}"
 
 
 def group_of_index(seed, index, tier):
-    # the first three draws of gen_cfg
+    # the first draws of gen_cfg
     rng = random.Random(seed)
+    if rng.random() < P_DRIVER[tier]:
+        return f"driver-{rng.randrange(DRIVER_MENU):02d}"
     R = rng.choice([1, 2, 2, 3, 3, 4])
     n = rng.choice([1, 2, 3, 4, 6, 8])
     container = rng.choice(["restricted", "unrestricted"])
@@ -377,7 +407,60 @@ def site_of(route, container):
     return ("propagator_restricted" if container == "restricted" else "propagator_unrestricted") + ".stochastic_reconfiguration_global"
 
 
+class _RenamingCtx:
+    """Reports the driver-level refinement failures under this property's classes."""
+
+    def __init__(self, ctx):
+        self._ctx = ctx
+
+    def __getattr__(self, name):
+        return getattr(self._ctx, name)
+
+    def violation(self, klass, site, detail=None):
+        detail = dict(detail or {})
+        detail["trigger"] = {"container": "driver"}
+        self._ctx.violation("sr.driver_population_is_not_the_serial_comb:" + klass.split(".", 1)[-1], site, detail)
+
+
+def _exec_driver(cfg, ctx):
+    """The comb in situ: a complete driver.afqmc run on 1-3 simulated ranks; from the
+    population every rank pickled after each block, the next block must start from the
+    serial reference comb on the rank-ordered concatenated population with the root's
+    offset (checked by replaying the next block from that population)."""
+    from ad_afqmc import sampling
+
+    from .. import lab
+    from . import coherence
+
+    d = cfg["dcfg"]
+    s = lab.build_system(coherence.spec_of(d))
+    smp = sampling.sampler(d["n_prop_steps"], d["n_ene_blocks"], d["n_sr_blocks"], d["n_blocks"])
+    opts = lab.default_options(seed=d["jax_seed"], ad_mode=d["ad_mode"], n_ene_blocks_eql=1, n_sr_blocks_eql=1, n_eql=1,
+                               orbital_rotation=d["orbital_rotation"], do_sr=d["do_sr"], save_walkers=True)
+    log = EventLog()
+    try:
+        out = lab.run_driver_world(s, smp, opts, d["R"], ctx.decider, sched=d["sched"], log=log)
+    except (Deadlock, SimMPIError) as e:
+        ctx.violation("sr.deadlock", "driver.afqmc", {"trigger": {"container": "driver"}, "error": str(e)})
+        return {"digest": None, "nontrivial": False}
+    raw = out["files"].get("samples_raw.dat", b"")
+    rows = lab.parse_samples(raw)
+    before = dict(ctx.stats)
+    coherence.driver_replay(_RenamingCtx(ctx), d, s, smp, out, [], rows)
+    n_tr = ctx.stats.get("driver_block_transitions_replayed", 0) - before.get("driver_block_transitions_replayed", 0)
+    ctx.probe("driver_block_transitions_checked", n_tr)
+    w = out["world"]
+    for k in ("eager", "rendezvous", "collectives", "sched_decisions"):
+        ctx.count(k, w.stats[k])
+    return {"digest": arr_hash(np.frombuffer(raw + log.digest().encode(), np.uint8)), "nontrivial": n_tr > 0,
+            "sched_key": arr_hash(np.array(w.sched_trace, dtype=np.int64)),
+            "state_keys": [f"driver-R{d['R']}-{d['wt']}-{d['ad_mode']}-sr{int(d['do_sr'])}"], "sim_steps": d["n_blocks"], "sim_time": 0.0,
+            "sample": {"driver_cfg": d, "block_transitions_checked": n_tr, "samples_raw_head": raw.decode().splitlines()[:2]}}
+
+
 def execute(cfg, ctx):
+    if cfg.get("driver"):
+        return _exec_driver(cfg, ctx)
     import jax.numpy as jnp
     from jax import random
 
@@ -503,6 +586,10 @@ def execute(cfg, ctx):
 def shrink_candidates(cfg, decisions):
     from ..shrink import decision_candidates
 
+    if cfg.get("driver"):
+        for dec in decision_candidates(decisions):
+            yield cfg, dec
+        return
     c = dict(cfg)
     if cfg["rounds"] > 1:
         for keep in (1, cfg["rounds"] - 1):
